@@ -16,6 +16,7 @@ import Driver.Inverse
 import Driver.Wrapper
 import Driver.LineReader
 import Driver.Formula
+import Driver.Assemblage
 
 /-- `pmodel <sub-command>`: each sub-command is a line-protocol driver of one executable model. -/
 def main (args : List String) : IO UInt32 := do
@@ -38,4 +39,5 @@ def main (args : List String) : IO UInt32 := do
   | ["wrapper"] => Driver.Wrapper.run; return 0
   | ["linereader"] => Driver.LineReader.run; return 0
   | ["formula"] => Driver.Formula.run; return 0
+  | ["assemblage"] => Driver.Assemblage.run; return 0
   | _ => IO.eprintln s!"pmodel: unknown sub-command {args}"; return 2
